@@ -1104,7 +1104,8 @@ class ConcatScenario(BaseScenario):
         # (a second copy into a workspace that already holds the holes' identifiers raises: C12's known finding, whichever check runs)
         new, outcome = self.call(w, lambda: group.copy(parent=target), "either" if (self.prop == "C12" or (again and dh != w.groups[g]["h"])) else "ok", what="copy_group")
         del group
-        if outcome.startswith("refused") and self.prop == "C12":
+        if outcome.startswith("refused") and (self.prop == "C12" or (again and dh != w.groups[g]["h"])):
+            # (in every check: the half-made group the failed copy leaves in the target is part of this finding)
             raise Violation("C12", "copy_raises", f"copying a drillhole group to {'another' if dh != w.groups[g]['h'] else 'the same'} workspace raised "
                             f"{outcome.split(':')[1]}", {"cls": "DrillholeGroup", "exc": outcome.split(":")[1], "again": again})
         if outcome != "ok" or new is None:
